@@ -73,7 +73,8 @@ def emit(p, fname, naming=0):
     if t == "call":
         def call(f, v):
             return {"utf8.RuneLen": "utf8.RuneLen(rune(%s))", "utf16.RuneLen": "utf16.RuneLen(rune(%s))",
-                    "bits.OnesCount8": "bits.OnesCount8(uint8(%s))", "bits.Len8": "bits.Len8(uint8(%s))"}[f] % v
+                    "bits.OnesCount8": "bits.OnesCount8(uint8(%s))", "bits.Len8": "bits.Len8(uint8(%s))",
+                    "a/util.Weight": "autil.Weight(%s)", "b/util.Weight": "butil.Weight(%s)"}[f] % v
         return sig + "\treturn %s\n}\n" % binw(p["op"], call(p["f"], a), call(p["g"], b), pres, True)
     if t == "rec":
         return (sig + "\tif %s <= 0 {\n\t\treturn %d\n\t}\n\treturn %s\n}\n"
@@ -185,7 +186,17 @@ def emit(p, fname, naming=0):
     raise KeyError(t)
 
 
-HEADER = 'package %s\n\nimport (\n\t"math/bits"\n\t"unicode/utf16"\n\t"unicode/utf8"\n)\n\nvar _ = bits.Len8\nvar _ = utf16.RuneLen\nvar _ = utf8.RuneLen\n\nfunc clamp(v int) int {\n\tif v < 0 {\n\t\treturn 0\n\t}\n\tif v > 4 {\n\t\treturn 4\n\t}\n\treturn v\n}\n\nvar picks = [5]string{"", "ab", "abc", "abd", "b"}\n\nfunc pick(v int) string { return picks[clamp(v)] }\n\nvar tabs = [5][]int{{}, {1}, {3, -1}, {2, 2, 5}, {0, 4, 1, 7}}\n\nfunc tab(v int) []int { return tabs[clamp(v)] }\n\nfunc b2i(c bool) int {\n\tif c {\n\t\treturn 1\n\t}\n\treturn 0\n}\n\nfunc dm(x, y int) (int, int) { return x + y, x - y }\n\nfunc kind(v any) int {\n\tswitch v.(type) {\n\tcase int32:\n\t\treturn 1\n\tcase int64:\n\t\treturn 2\n\t}\n\treturn 3\n}\n\n'
+HEADER = 'package %s\n\nimport (\n\t"math/bits"\n\t"unicode/utf16"\n\t"unicode/utf8"\n\n\tautil "example.com/minigo/a/util"\n\tbutil "example.com/minigo/b/util"\n)\n\nvar _ = bits.Len8\nvar _ = utf16.RuneLen\nvar _ = utf8.RuneLen\nvar _ = autil.Weight\nvar _ = butil.Weight\n\nfunc clamp(v int) int {\n\tif v < 0 {\n\t\treturn 0\n\t}\n\tif v > 4 {\n\t\treturn 4\n\t}\n\treturn v\n}\n\nvar picks = [5]string{"", "ab", "abc", "abd", "b"}\n\nfunc pick(v int) string { return picks[clamp(v)] }\n\nvar tabs = [5][]int{{}, {1}, {3, -1}, {2, 2, 5}, {0, 4, 1, 7}}\n\nfunc tab(v int) []int { return tabs[clamp(v)] }\n\nfunc b2i(c bool) int {\n\tif c {\n\t\treturn 1\n\t}\n\treturn 0\n}\n\nfunc dm(x, y int) (int, int) { return x + y, x - y }\n\nfunc kind(v any) int {\n\tswitch v.(type) {\n\tcase int32:\n\t\treturn 1\n\tcase int64:\n\t\treturn 2\n\t}\n\treturn 3\n}\n\n'
+
+
+def write_support(root):
+    """The two same-named helper packages of the module example.com/minigo rooted at `root`."""
+    import os
+    for sub, body in (("a", "2*x + 1"), ("b", "3 * x")):
+        d = os.path.join(root, sub, "util")
+        os.makedirs(d, exist_ok=True)
+        with open(os.path.join(d, "util.go"), "w") as fh:
+            fh.write("// Package util (%s flavour).\npackage util\n\n// Weight weighs x.\nfunc Weight(x int) int { return %s }\n" % (sub, body))
 
 
 def render_file(pkg, items):
